@@ -75,7 +75,7 @@ func (ex *Exec) callFn(st *State, fr *Frame, x *ssa.Call, fn *ssa.Function, bind
 		ex.pushFrame(st, fn, bind, args, x, fr.Depth+1)
 		return false
 	}
-	if c == nil && fn.Blocks != nil && fn.Pkg != nil && strings.HasPrefix(fn.Pkg.Pkg.Path(), cadenceMod) && fr.Depth <= 6 {
+	if c == nil && fn.Blocks != nil && fn.Pkg != nil && ex.autoInlinePkg(fn.Pkg.Pkg.Path()) && fr.Depth <= 6 {
 		// A repository function nobody wrote a contract for (e.g. a helper extracted by a refactoring): its body is
 		// executed in place, like an `inline` contract would. Recursion is not followed.
 		rec := false
